@@ -12,7 +12,7 @@
 #![allow(dead_code, unused_imports, unused_variables, unused_mut)]
 use super::verif_kani::*;
 use super::*;
-use crate::frame::{BindPayload, BindType, Frame, OpCode};
+use crate::frame::{BindPayload, BindType, ConnectPayload, Frame, OpCode, Payload};
 use crate::loom::Ordering;
 use alloc::vec::Vec;
 use core::future::Future;
@@ -403,7 +403,7 @@ fn t_ack_bindrequested() {
 fn t_push_absent() {
     let mut w = world(4, 2, false, 1);
     let mut sb = bystander_established(&w);
-    let r = poll_once(w.task.process_frame(Frame::new_push(A, b"ab"), false));
+    let r = poll_once(w.task.process_frame(push_frame(A, b"ab"), false));
     assert!(matches!(r, Poll::Ready(Ok(()))), "C10.push.unknown.ok");
     core::mem::forget(r);
     let seen = next_seen(&mut w.tx_msg_rx);
@@ -452,7 +452,7 @@ fn t_push_overrun() {
     let (mut sa, da) = w.task.new_stream_shared(A, 3, Bytes::new(), 0);
     da.sender.as_ref().unwrap().try_send(Bytes::from_static(b"p")).ok(); // queue capacity == rwnd == 1: full
     w.task.flows.write().insert(A, FlowSlot::Established(da));
-    let r = poll_once(w.task.process_frame(Frame::new_push(A, b"ab"), false));
+    let r = poll_once(w.task.process_frame(push_frame(A, b"ab"), false));
     assert!(matches!(r, Poll::Ready(Ok(()))), "C03.overrun.ok: an overrun is not a connection error and does not block");
     core::mem::forget(r);
     let seen = next_seen(&mut w.tx_msg_rx);
@@ -474,7 +474,7 @@ fn t_push_after_finish() {
     let (mut sa, mut da) = w.task.new_stream_shared(A, 3, Bytes::new(), 0);
     drop(da.disallow_read());
     w.task.flows.write().insert(A, FlowSlot::Established(da));
-    let r = poll_once(w.task.process_frame(Frame::new_push(A, b"ab"), false));
+    let r = poll_once(w.task.process_frame(push_frame(A, b"ab"), false));
     assert!(matches!(r, Poll::Ready(Ok(()))), "C10.push.after_finish.ok");
     core::mem::forget(r);
     let seen = next_seen(&mut w.tx_msg_rx);
@@ -494,7 +494,7 @@ fn t_push_requested() {
     let mut rb = bystander_bind(&w);
     let (tx, mut rx) = oneshot::channel::<Option<MuxStream>>();
     w.task.flows.write().insert(A, FlowSlot::Requested(tx));
-    let r = poll_once(w.task.process_frame(Frame::new_push(A, b"ab"), false));
+    let r = poll_once(w.task.process_frame(push_frame(A, b"ab"), false));
     assert!(matches!(r, Poll::Ready(Ok(()))), "C10.push.requested.ok");
     core::mem::forget(r);
     let seen = next_seen(&mut w.tx_msg_rx);
@@ -515,7 +515,7 @@ fn t_push_stream_dropped() {
     let (mut sa, da) = w.task.new_stream_shared(A, 3, Bytes::new(), 0);
     sa.rx_frame_rx.close(); // what dropping the stream does to the queue
     w.task.flows.write().insert(A, FlowSlot::Established(da));
-    let r = poll_once(w.task.process_frame(Frame::new_push(A, b"ab"), false));
+    let r = poll_once(w.task.process_frame(push_frame(A, b"ab"), false));
     assert!(matches!(r, Poll::Ready(Ok(()))), "C10.push.dropped.ok: late data for a locally dropped stream is not a connection error");
     core::mem::forget(r);
     assert!(sa.rx_frame_rx.len() == 0, "C10.push.dropped.not_queued");
@@ -534,7 +534,7 @@ fn t_connect_zero() {
     let mut rb = bystander_bind(&w);
     let peer: u32 = kani::any();
     let port: u16 = kani::any();
-    let r = poll_once(w.task.process_frame(Frame::new_connect(b"h", port, 0, peer), false));
+    let r = poll_once(w.task.process_frame(connect_frame(b"h", port, 0, peer), false));
     assert!(matches!(r, Poll::Ready(Ok(()))), "C07.connect.zero.ok");
     core::mem::forget(r);
     let seen = next_seen(&mut w.tx_msg_rx);
@@ -554,7 +554,7 @@ fn t_connect_in_use() {
     let mut sb = bystander_established(&w);
     let peer: u32 = kani::any();
     let port: u16 = kani::any();
-    let r = poll_once(w.task.process_frame(Frame::new_connect(b"h", port, B, peer), false));
+    let r = poll_once(w.task.process_frame(connect_frame(b"h", port, B, peer), false));
     assert!(matches!(r, Poll::Ready(Ok(()))), "C07.connect.inuse.ok");
     core::mem::forget(r);
     let seen = next_seen(&mut w.tx_msg_rx);
@@ -579,7 +579,7 @@ fn t_connect_fresh() {
     let mut rb = bystander_bind(&w);
     let peer: u32 = kani::any();
     let port: u16 = kani::any();
-    let r = poll_once(w.task.process_frame(Frame::new_connect(b"hi", port, A, peer), false));
+    let r = poll_once(w.task.process_frame(connect_frame(b"hi", port, A, peer), false));
     assert!(matches!(r, Poll::Ready(Ok(()))), "C07.connect.ok");
     core::mem::forget(r);
     let seen = next_seen(&mut w.tx_msg_rx);
@@ -605,6 +605,52 @@ fn t_connect_fresh() {
     core::mem::forget((rb, w));
 }
 
+
+/// Connect whose id collides with one of OUR OWN pending requests (simultaneous open with the same
+/// id, or a pending bind): the id is in use -> Reset, and the pending request is not disturbed
+#[cfg_attr(kani, kani::proof)]
+#[cfg_attr(kani, kani::stub(catch_unwind, call_through))]
+#[cfg_attr(kani, kani::unwind(6))]
+#[cfg_attr(verif_replay, test)]
+fn t_connect_on_pending_request() {
+    let mut w = world(4, 2, false, 1);
+    let mut rb = bystander_bind(&w); // a pending bind under id B
+    let (tx, mut rx) = oneshot::channel::<Option<MuxStream>>();
+    w.task.flows.write().insert(A, FlowSlot::Requested(tx)); // a pending open under id A
+    let on_bind: bool = kani::any();
+    let id = if on_bind { B } else { A };
+    let peer: u32 = kani::any();
+    let r = poll_once(w.task.process_frame(connect_frame(b"h", 7, id, peer), false));
+    assert!(matches!(r, Poll::Ready(Ok(()))), "C07.connect.pending.ok");
+    core::mem::forget(r);
+    let seen = next_seen(&mut w.tx_msg_rx);
+    assert!(seen.op == 2 && seen.id == id && seen.len == 5, "C07.connect.pending.reset: a Connect on an id this endpoint is itself using for a pending request is rejected with Reset");
+    assert!(out_empty(&mut w.tx_msg_rx) && w.con_rx.len() == 0, "C07.connect.pending.nothing: no Acknowledge, no stream");
+    let mut c = cx();
+    assert!(matches!(Pin::new(&mut rx).poll(&mut c), Poll::Pending), "C07.connect.pending.undisturbed: the pending open keeps waiting for ITS answer");
+    assert!(matches!(w.task.flows.read().get(&A), Some(FlowSlot::Requested(_))) && table_len(&w) == 2, "C07.connect.pending.slot_kept");
+    assert!(bystander_bind_untouched(&w, &mut rb), "C07.connect.pending.bind_undisturbed");
+    core::mem::forget((rx, rb, w));
+}
+
+/// frames as the decoder produces them from a received message: payload fields are owned
+/// (`CowBytes::Static` slices of the message), so `into_static()` in the dispatcher does not copy
+pub(crate) fn connect_frame(host: &'static [u8], port: u16, id: u32, rwnd: u32) -> Frame<'static> {
+    Frame {
+        id,
+        payload: Payload::Connect(ConnectPayload { rwnd, target_port: port, target_host: cow_bytes::CowBytes::Static(Bytes::from_static(host)) }),
+    }
+}
+pub(crate) fn bind_frame(id: u32, bt: BindType, host: &'static [u8], port: u16) -> Frame<'static> {
+    Frame {
+        id,
+        payload: Payload::Bind(BindPayload { bind_type: bt, target_port: port, target_host: cow_bytes::CowBytes::Static(Bytes::from_static(host)) }),
+    }
+}
+pub(crate) fn push_frame(id: u32, data: &'static [u8]) -> Frame<'static> {
+    Frame::new_push_owned(id, Bytes::from_static(data))
+}
+
 // ======================================================================== Bind
 #[cfg_attr(kani, kani::proof)]
 #[cfg_attr(kani, kani::stub(catch_unwind, call_through))]
@@ -614,7 +660,7 @@ fn t_bind_disabled() {
     let mut w = world(4, 2, false, 1);
     let mut rb = bystander_bind(&w);
     let port: u16 = kani::any();
-    let r = poll_once(w.task.process_frame(Frame::new_bind(A, BindType::Stream, b"h", port), false));
+    let r = poll_once(w.task.process_frame(bind_frame(A, BindType::Stream, b"h", port), false));
     assert!(matches!(r, Poll::Ready(Ok(()))), "C15.bind.disabled.ok");
     core::mem::forget(r);
     let seen = next_seen(&mut w.tx_msg_rx);
@@ -636,7 +682,7 @@ fn t_bind_enabled() {
     let port: u16 = kani::any();
     let dgram: bool = kani::any();
     let bt = if dgram { BindType::Datagram } else { BindType::Stream };
-    let r = poll_once(w.task.process_frame(Frame::new_bind(A, bt, b"ho", port), false));
+    let r = poll_once(w.task.process_frame(bind_frame(A, bt, b"ho", port), false));
     assert!(matches!(r, Poll::Ready(Ok(()))), "C15.bind.ok");
     core::mem::forget(r);
     assert!(out_empty(&mut w.tx_msg_rx), "C15.bind.no_auto_answer: the endpoint does not answer on the application's behalf");
@@ -663,7 +709,7 @@ fn t_bind_enabled() {
 #[cfg_attr(verif_replay, test)]
 fn t_bind_ignored_in_teardown() {
     let mut w = world(4, 2, true, 1);
-    let r = poll_once(w.task.process_frame(Frame::new_bind(A, BindType::Stream, b"h", 7), true));
+    let r = poll_once(w.task.process_frame(bind_frame(A, BindType::Stream, b"h", 7), true));
     assert!(matches!(r, Poll::Ready(Ok(()))), "C15.bind.teardown.ok");
     core::mem::forget(r);
     assert!(out_empty(&mut w.tx_msg_rx) && w.bnd_rx.as_mut().unwrap().len() == 0, "C15.bind.teardown.silent");
@@ -713,7 +759,7 @@ fn t_datagram_queue_full() {
     let mut rb = bystander_bind(&w);
     let first = Datagram { flow_id: 1, target_host: Bytes::new(), target_port: 1, data: Bytes::from_static(b"1") };
     w.task.datagram_tx.try_send(first).ok();
-    let r = poll_once(w.task.process_frame(Frame::new_datagram(C, b"h", 9, b"xy"), false));
+    let r = poll_once(w.task.process_frame(Frame::new_datagram_owned(C, Bytes::from_static(b"h"), 9, Bytes::from_static(b"xy")), false));
     assert!(matches!(r, Poll::Ready(Ok(()))), "C11.dgram.full.ok: a full datagram queue never ends the connection and never blocks it");
     core::mem::forget(r);
     assert!(out_empty(&mut w.tx_msg_rx), "C11.dgram.full.silent");
@@ -838,7 +884,7 @@ fn t_reuse_after_abort() {
     w.task.flows.write().insert(A, FlowSlot::Established(da));
     w.task.close_flow(A, true);
     let peer: u32 = kani::any();
-    let r = poll_once(w.task.process_frame(Frame::new_connect(b"h", 1, A, peer), false));
+    let r = poll_once(w.task.process_frame(connect_frame(b"h", 1, A, peer), false));
     assert!(matches!(r, Poll::Ready(Ok(()))), "C06.reuse.ok: a freed id can be opened again");
     core::mem::forget(r);
     let got = w.con_rx.try_recv();
